@@ -436,6 +436,10 @@ def ep_filter(prog: Program) -> RuleResult:
     return r
 
 
+def site_of(f) -> str:
+    return f"{f.module.relpath}:{f.node.lineno}"
+
+
 def _expanded_test(prog: Program, cq: str, f, test: ast.expr) -> List[ast.expr]:
     """the test together with the bodies of the node's own properties it reads (locals of the property inlined)"""
     out = [test]
@@ -447,7 +451,25 @@ def _expanded_test(prog: Program, cq: str, f, test: ast.expr) -> List[ast.expr]:
                 continue
             body = [st for st in p.node.body if not (isinstance(st, ast.Expr) and isinstance(st.value, ast.Constant))]
             env = {}
-            for st in body:
+            # `if T: return A` followed by `return B` is one value: A if T else B (guards folded from the end)
+            folded = []
+            for i, st in enumerate(body):
+                if isinstance(st, ast.If) and not st.orelse and len(st.body) == 1 and isinstance(st.body[0], ast.Return) and st.body[0].value is not None \
+                        and all(isinstance(x, (ast.If, ast.Return)) for x in body[i:]):
+                    tail = body[i:]
+                    val = tail[-1].value if isinstance(tail[-1], ast.Return) else None
+                    if val is None:
+                        break
+                    okf = True
+                    for g_ in reversed(tail[:-1]):
+                        if isinstance(g_, ast.If) and not g_.orelse and len(g_.body) == 1 and isinstance(g_.body[0], ast.Return) and g_.body[0].value is not None:
+                            val = ast.IfExp(test=g_.test, body=g_.body[0].value, orelse=val)
+                        else:
+                            okf = False
+                    if okf:
+                        folded = body[:i] + [ast.Return(value=val)]
+                    break
+            for st in (folded or body):
                 if isinstance(st, ast.Assign) and len(st.targets) == 1 and isinstance(st.targets[0], ast.Name):
                     env[st.targets[0].id] = st.value
                 elif isinstance(st, ast.Return) and st.value is not None:
@@ -678,6 +700,25 @@ def ep_operand(prog: Program) -> RuleResult:
                    "a literal or a variable that stands as a condition itself (entity(x, x.n > 0, False), entity(b, b) over [True, False]) holds for every value")
     for q in sorted(judged - set(const_false)):
         r.ok(f"{prog.functions[q].short}#every-own-value-judged", f"{prog.functions[q].module.relpath}:{prog.functions[q].node.lineno}", "", "no emission of an own value with a constant flag")
+    # where a node stands is said by the expression that evaluates it (its parent of this evaluation). The structural tree of a *variable* is
+    # whatever was written over it last - d = x.real makes the attribute the root of x's tree, used or not - so "I am the root of the
+    # conditions" may only decide for a node that is evaluated without a parent
+    se = prog.cls("symbolic.SymbolicExpression")
+    sac = prog.lookup(se.qual, "_stands_as_condition_")
+    if sac is not None:
+        probe = ast.parse(f"{sac.params[0] if sac.params else 'self'}._stands_as_condition_", mode="eval").body
+        exprs = _expanded_test(prog, se.qual, sac, probe)
+        roots = [x for e in exprs for x in ast.walk(e) if isinstance(x, ast.Compare) and "_conditions_root_" in src(x)]
+        if roots:
+            def parentless(e) -> bool:
+                return isinstance(e, ast.Compare) and len(e.ops) == 1 and isinstance(e.ops[0], ast.Is) and "_eval_parent_" in src(e.left) and isinstance(e.comparators[0], ast.Constant) and e.comparators[0].value is None
+            guarded = all(any(isinstance(b, ast.BoolOp) and isinstance(b.op, ast.And) and any(v is rt for v in b.values) and any(parentless(v) for v in b.values[:b.values.index(rt)])
+                              for e in exprs for b in ast.walk(e)) for rt in roots)
+            r.check(guarded, "SymbolicExpression._stands_as_condition_#tree-only-without-evaluation-parent", site_of(sac), src(roots[0])[:80],
+                    "the structural tree decides only for a node that is evaluated without a parent",
+                    "`self is self._conditions_root_` is consulted although an expression is evaluating this node: an expression written over a variable after the query was built "
+                    "(d = x.real, used nowhere) becomes the root of the variable's tree, the operand x of x == 0 is then taken for the whole condition, its falsy values are "
+                    "dropped and the query returns nothing")
     return r
 
 
@@ -841,6 +882,16 @@ def ep_quant(prog: Program) -> RuleResult:
             keyed, why = True, f"key over {src(coll)} minus the quantified variable"
     r.check(keyed is True, "Exists._evaluate__#keyed-by-free-variables", site(f), why, "one result per binding of the free variables",
             f"{why}: exists(y, x.a == y.a) with x unbound drops a second x that matches the same y, and a bound x with two matching y is answered twice")
+    # the result of a predicate / symbolic function call is a variable too (a Variable with child variables), and _all_variable_instances_
+    # lists it: its value is the verdict itself (True for a witness, False for a failing value), so a key that includes it tells the two
+    # apart and the binding is answered twice - once true, once false
+    if keyed is True and coll is not None and any(isinstance(x, ast.Attribute) and x.attr == "_all_variable_instances_" for x in ast.walk(coll)):
+        marks = ("_child_vars_", "_kwargs_", "_should_be_instantiated_", "_predicate_type_", "_is_inferred_")
+        computed_out = any(isinstance(x, ast.Attribute) and x.attr in marks for t in (filt or []) for x in ast.walk(t))
+        r.check(computed_out, "Exists._evaluate__#computed-variables-are-not-free", site(f), src(coll), "variables computed from their arguments (predicate and function calls) are left out of the key",
+                "the key ranges over every variable instance of the condition, the result variables of predicate / symbolic function calls included: their value is the verdict itself, "
+                "so a binding with a failing value and a witness gets two keys and is reported true and false - or_(exists(y, lt(x, y)), is_two(x)) yields 2 twice, "
+                "not_(or_(exists(f, is_apple(f)), c)) reports a box that holds an apple")
     # one verdict per binding: a binding reported true (a witness was found) is not reported false when the pass ends.  A failing value of
     # the quantified expression may well be seen before the witness; what was noted for it has to go when the witness arrives.
     sat_names = {a_.func.value.id for a_ in adds}
